@@ -121,7 +121,43 @@ def check_tree(spec, j):
     return f
 
 
+_HOOK_MODEL = []
+
+
+def check_hooks(r):
+    """The triple-level laws are stated in terms of the model's own role queries, so they hold for a model that is a
+    subclass overriding those documented queries (here: inversion spelled with the suffix "-inv", ":part-of" an ordinary
+    role): inverting a triple swaps source and target and uses invert_role(); deinverting an inverted triple equals
+    inverting it; a non-inverted triple is returned unchanged."""
+    if not _HOOK_MODEL:
+        from penman.model import Model
+
+        class SuffixModel(Model):
+            def is_role_inverted(self, role):
+                return role.endswith('-inv')
+
+            def invert_role(self, role):
+                return role[:-4] if role.endswith('-inv') else role + '-inv'
+        _HOOK_MODEL.append(SuffixModel(roles={':ARG[0-9]': {}, ':mod': {}, ':part-of': {}}))
+    m = _HOOK_MODEL[0]
+    f = []
+    for tgt in ('t', 7, None):
+        tr = ('s', r, tgt)
+        inv = m.invert(tr)
+        if inv != (tgt, m.invert_role(r), 's'):
+            f.append(('subclass-hooks:invert', 'invert(%r) -> %r with invert_role -> %r' % (tr, inv, m.invert_role(r))))
+        exp = inv if m.is_role_inverted(r) else tr
+        got = m.deinvert(tr)
+        if got != exp:
+            f.append(('subclass-hooks:deinvert', 'deinvert(%r) -> %r, expected %r (is_role_inverted -> %r)' % (tr, got, exp, m.is_role_inverted(r))))
+        if f:
+            break
+    return f
+
+
 def check(case):
+    if case['k'] == 'hooks':
+        return check_hooks(case['r'])
     if case['k'] == 'role':
         if case.get('first'):
             # another role of the same chain is canonicalised first, on the same model object: answers must not depend on the order
@@ -139,6 +175,8 @@ def nontrivial(case):
 
 
 def classes(case):
+    if case['k'] == 'hooks':
+        return ['subclass-hooks']
     out = [case['k'], 'model:' + case['model'].get('name', 'custom')]
     if case['k'] == 'role':
         r = case['r']
@@ -175,6 +213,7 @@ def bases_for(spec):
             while b.endswith('-of'):
                 b = b[:-3]
                 out.append(b)
+    out += list(spec.get('pool') or [])
     for k, v in t['normalizations'].items():
         out += [k, v]
         b = k
@@ -196,14 +235,22 @@ FIXED_CUSTOM = [
     {'name': 'custom', 'roles': [':ARG0', ':isa'], 'normalizations': {':head-of': ':ARG0', ':kind-of': ':isa'}, 'reifications': [],
      'top_role': ':head-of', 'concept_role': ':kind-of'},
     {'name': 'custom', 'roles': [':ARG0'], 'normalizations': {}, 'reifications': [], 'concept_role': ':instance-of', 'top_role': ':top'},
+    # one key that is an alternation without parentheses
+    {'name': 'custom', 'roles': [':op[0-9]+|:snt[0-9]+', ':ARG[0-9]|:mod|:part-of'], 'normalizations': {}, 'reifications': [],
+     'pool': [':op1', ':op12', ':snt1', ':snt3', ':ARG1', ':mod', ':part-of', ':part']},
 ]
 
 
 def _enum_chunks(tier):
-    return [{'m': i} for i in range(len(models.NAMED) + len(FIXED_CUSTOM))]
+    return [{'m': i} for i in range(len(models.NAMED) + len(FIXED_CUSTOM))] + [{'hooks': True}]
 
 
 def _enum_cases(ch):
+    if ch.get('hooks'):
+        for b in [':ARG0', ':mod', ':part-of', ':foo', ':part', 'ARG1', ':', '', ':x-inv', ':-inv']:
+            for suf in ('', '-inv', '-of', '-inv-inv', '-of-inv', '-inv-of'):
+                yield {'k': 'hooks', 'r': b + suf}
+        return
     spec = (models.NAMED + FIXED_CUSTOM)[ch['m']]
     for b in bases_for(spec):
         for k in (0, 1, 2, 3, 4, 9, 10, 11, 16):
